@@ -125,11 +125,35 @@ def split_dims(o):
     return wn, wo
 
 
+def prewrite_sources(tl):
+    """Write the generated sources where vf/build.py expects them, single-threaded.
+    (build.py writes `<gen>/<name>_<sha>.cpp` through a temp file named by the PROCESS id only; the flavours of one program
+    share that path and are built by parallel threads, so two threads race on the same temp file -> FileNotFoundError.
+    With the file already present build.py does not write at all.)"""
+    import hashlib
+    d = os.path.join(B.BUILD, "gen")
+    os.makedirs(d, exist_ok=True)
+    done = set()
+    for t in tl:
+        if t.text is None:
+            continue
+        b = t.text.encode()
+        path = os.path.join(d, t.name + "_" + hashlib.sha1(b).hexdigest()[:12] + ".cpp")
+        if path in done or os.path.exists(path):
+            continue
+        done.add(path)
+        tmp = path + ".pre%d" % os.getpid()
+        with open(tmp, "wb") as f:
+            f.write(b)
+        os.replace(tmp, path)
+
+
 def targets(tier, seed):
     out = []
     for p, flavors in plan(tier, seed):
         for fl in flavors:
             out.append(p.target(fl))
+    prewrite_sources(out)
     return out
 
 
@@ -203,6 +227,7 @@ def run_plan(ctx, tier, seed, want_flavors=None):
                 continue
             tl.append((p, fl, p.target(fl)))
     t0 = time.time()
+    prewrite_sources([t for _, _, t in tl])
     res = B.build([t for _, _, t in tl])
     dropped = {}
     bad = [k for k, t in enumerate(res) if t.error]
@@ -246,6 +271,7 @@ def run_plan(ctx, tier, seed, want_flavors=None):
         except OSError:
             pass
         tl = [(p, fl, p.target(fl)) for (p, fl, _) in tl]
+        prewrite_sources([t for _, _, t in tl])
         res = B.build([t for _, _, t in tl])
         bad2 = [t for t in res if t.error]
         if bad2:
@@ -536,6 +562,9 @@ def arr_norm(a):
     if a is None:
         return ("N",)
     if a.get("scalar"):
+        return ("S", a["data"][0])
+    if a["shape"] == [] and a["data"] is not None and len(a["data"]) == 1:
+        # a 0-dimensional array and a scalar are the same logical result (NumPy returns a scalar)
         return ("S", a["data"][0])
     return ("A", a["shape"], a["data"])
 
